@@ -18,11 +18,33 @@ struct PopRewardsBigDecimal {
   PopRewardsBigDecimal operator*(const PopRewardsBigDecimal& o) const { PopRewardsBigDecimal r; r.v = v * o.v; return r; }
   PopRewardsBigDecimal operator/(const PopRewardsBigDecimal& o) const { PopRewardsBigDecimal r; r.v = v / o.v; return r; }
   PopRewardsBigDecimal operator-(const PopRewardsBigDecimal& o) const { PopRewardsBigDecimal r; r.v = v - o.v; return r; }
+  PopRewardsBigDecimal& operator+=(const PopRewardsBigDecimal& o) { v += o.v; return *this; }
+  PopRewardsBigDecimal& operator/=(uint64_t d) { v = (int32_t)(v / (int32_t)d); return *this; }
 };
+// endorsed ALT block shell, VBK tree shell (as in unit bestpub)
+#define VB 3
+#define EMAX 2
+#define ABLK 3
+struct EndorsementShell { int blockOfProof; };
+struct VbkIndex { int32_t height; bool onBest; int32_t getHeight() const { return height; } };
+struct BestChainShell { bool contains(const VbkIndex* p) const { return p != 0 && p->onBest; } };
+struct VbkBlockTree {
+  VbkIndex* all[VB]; BestChainShell best;
+  VbkIndex* getBlockIndex(int hash) const { return ((hash) < 0 || (hash) >= VB) ? (VbkIndex*)0 : const_cast<VbkBlockTree*>(this)->all[hash]; }
+  const BestChainShell& getBestChain() const { return const_cast<VbkBlockTree*>(this)->best; }
+};
+struct AltIndexShell {
+  AltIndexShell* pprev; EndorsementShell* e_[EMAX]; size_t ne_;
+  struct ByShell { AltIndexShell* o_; size_t size() const { return o_->ne_; } EndorsementShell* operator[](size_t i) const { return o_->e_[i]; } };
+  ByShell getEndorsedBy() const { ByShell b; b.o_ = const_cast<AltIndexShell*>(this); return b; }
+};
+#include "slices/getBestPublicationHeight.inc"
+
 struct RatioTable { int32_t r_[RMAX]; PopRewardsBigDecimal at(uint32_t i) const { __CPROVER_assert(i < RMAX, "roundRatios().at(round): round within the table (std::out_of_range otherwise)"); PopRewardsBigDecimal d; d.v = const_cast<RatioTable*>(this)->r_[i < RMAX ? i : 0]; return d; } };
 struct ScoreTable { size_t n; size_t size() const { return n; } PopRewardsBigDecimal operator[](size_t i) const { __CPROVER_assert(i < n, "relativeScoreLookupTable index in range"); PopRewardsBigDecimal r; r.v = (int32_t)(10 + i); return r; } };
 struct PopPayoutsParams {
-  uint32_t rounds, ksround, flatround; bool useflat; size_t tablen;
+  uint32_t rounds, ksround, flatround; bool useflat; size_t tablen; uint32_t avg_;
+  uint32_t difficultyAveragingInterval() const { return avg_; }
   PopRewardsBigDecimal start_, slopeN_, slopeK_, maxN_, maxK_; RatioTable ratios_;
   uint32_t payoutRounds() const { return rounds; }
   uint32_t keystoneRound() const { return ksround; }
@@ -41,7 +63,7 @@ struct AltChainParams {
   uint32_t getKeystoneInterval() const { return ki; }
   const PopPayoutsParams& getPayoutParams() const { return const_cast<AltChainParams*>(this)->pp; }
 };
-struct TreeShell { AltChainParams params; const AltChainParams& getParams() const { return const_cast<TreeShell*>(this)->params; } };
+struct TreeShell { AltChainParams params; VbkBlockTree vbk_; const AltChainParams& getParams() const { return const_cast<TreeShell*>(this)->params; } VbkBlockTree& vbk() const { return const_cast<TreeShell*>(this)->vbk_; } };
 #include "slices/isKeystoneRound.inc"
 #include "slices/isFirstRoundAfterKeystone.inc"
 #include "slices/getRoundRatio.inc"
@@ -53,10 +75,14 @@ struct DefaultPopRewardsCalculator {
   uint32_t getRoundForBlockNumber(uint32_t height) const;
   PopRewardsBigDecimal getScoreMultiplierFromRelativeBlock(int relativeBlock) const;
   PopRewardsBigDecimal calculateBlockReward(uint32_t height, PopRewardsBigDecimal popscore, PopRewardsBigDecimal popdifficulty) const;
+  PopRewardsBigDecimal scoreFromEndorsements(const AltIndexShell& endorsedBlock);
+  PopRewardsBigDecimal calculateDifficulty(const AltIndexShell& tip);
   PopRewardsBigDecimal calculateMinerReward(uint32_t vbkRelativeHeight, const PopRewardsBigDecimal& scoreForThisBlock, const PopRewardsBigDecimal& blockReward) const;
 };
 #include "slices/getRoundForBlockNumber.inc"
 #include "slices/getScoreMultiplier.inc"
 #include "slices/calculateBlockReward.inc"
 #include "slices/calculateMinerReward.inc"
+#include "slices/scoreFromEndorsements.inc"
+#include "slices/calculateDifficulty.inc"
 }  // namespace altintegration
